@@ -140,11 +140,12 @@ PROPS["C06"] = {
 
 PROPS["C12"] = {
     "level": "proof",
+    "tools": ["examples/add-sidx"],
     "technique": "Lean 4 proof (grouping state machine: every moof in exactly one fragment of one segment, in order, for every delimiter configuration; sidx tiling arithmetic) + model-vs-code correspondence on generated fragmented files",
     "level_text": "Model lean/Mp4ff/Model/Segments.lean transcribes File.AddChild (styp/sidx/emsg/moof/mdat) and startSegmentIfNeeded (sidx references, tfra offsets, start-on-moof, default); theorems in Props/C12.lean; tie = the grouping of every generated file (all delimiter kinds x both flags) is computed by model and code and compared, plus direct oracles: segment-mode re-encoding byte-identical, and after UpdateSidx+Encode the written index is parsed independently and checked to tile the written media with the reference track's durations.",
     "level_note": "Trusted: Lean kernel, allowed axioms, transcription validated by correspondence; findSegmentData/fillSidx/insertSidx are exercised by the direct oracle (independent sidx parser).",
     "trusted": ["Model/Segments.lean hand transcription of mp4/file.go AddChild + startSegmentIfNeeded"],
-    "unmodelled": ["UpdateSidx internals (findSegmentData, fillSidx, insertSidx): direct oracle", "examples/add-sidx CLI glue"],
+    "unmodelled": ["UpdateSidx internals (findSegmentData, fillSidx, insertSidx) and the examples/add-sidx tool (built from the working tree on every run; options -removeEnc, -nzEPT, -startSegOnMoof): direct oracle on the written file"],
     "partial": [],
     "assumptions": ["single-run fragments carry the canonical data offset (fragments produced by the library)"],
 }
